@@ -17,8 +17,8 @@ Import ListNotations.
 From RX Require Import Generated.
 From RX.Model Require Import Base CharClass Stream Tokenizer Doc Builder Parse Api.
 From RX.Spec Require Cst.
-From RX.Spec Require CstText.
-From RX.Proofs Require Import BorrowLocal BorrowTokenizer BorrowParse TextMerge CstRangeDefs CstRangeMain CstRangeTDefs CstRangeTMain.
+From RX.Spec Require CstText CstEnt.
+From RX.Proofs Require Import BorrowLocal BorrowTokenizer BorrowParse TextMerge CstRangeDefs CstRangeMain CstRangeTDefs CstRangeTMain CstEntDoc CstRangeEDefs CstRangeEMain.
 Open Scope N_scope.
 
 (* ---- Proofs/BorrowLocal.v ---- *)
@@ -131,3 +131,26 @@ Proof. exact parse_render_storage_t. Qed.
 Print Assumptions C18_parse_render_storage_t.
 
 End G5.
+
+(* ---- Proofs/CstRangeEMain.v ---- *)
+Module G6.
+Module E := CstEnt.
+Theorem C18_parse_render_storage_e :
+  forall (c : E.doc) (opt : options) d,
+  E.wf_doc c = true ->
+  etext_only c = true ->                                       (* PARTIAL: every declared entity is character data *)
+  allow_dtd opt = true ->
+  N.of_nat (length (E.sem c)) < nodes_limit opt ->
+  N.of_nat (length (E.render c)) <= u32_max ->
+  parse (E.render c) opt = Ok d ->
+  (* every node holds exactly what [eshapes] says: the slices of its written occurrence; a Text node
+     is Borrowed with the span of its only fragment -- a literal or the content of a CDATA section
+     in the body, or the literal value of an entity inside the DOCTYPE -- or Owned *)
+  Forall2 stored_as_e (map nd_kind (tl (d_nodes d))) (eshapes c) /\
+  (* every attribute: its range, the slice of its name; the value is Borrowed with the span between
+     the quotes (no '&', TAB, LF, CR), or Owned *)
+  Forall2 attr_stored_e (d_attrs d) (eattr_spans c).
+Proof. exact parse_render_storage_e. Qed.
+Print Assumptions C18_parse_render_storage_e.
+
+End G6.
